@@ -1,7 +1,15 @@
 from typing import Any, List, Union, overload
 
 from .array import BoolArray1D, BoolArray2D, IntArray1D, IntArray2D, _elementwise
-from .expr import BoolExpr, BoolExprLike, IntExpr, IntExprLike, Op
+from .expr import (
+    BoolExpr,
+    BoolExprLike,
+    IntExpr,
+    IntExprLike,
+    Op,
+    _is_bool_expr_like,
+    _is_int_expr_like,
+)
 
 
 def flatten_iterator(*args: Any) -> Any:
@@ -127,9 +135,14 @@ def cond(
     elif isinstance(f, (IntArray1D, IntArray2D)):
         shape = f.shape
     else:
+        if not (_is_bool_expr_like(c) and _is_int_expr_like(t) and _is_int_expr_like(f)):
+            raise TypeError("unsupported argument type(s) for 'cond'")
         return IntExpr(Op.IF, [c, t, f])
 
-    return _elementwise(Op.IF, shape, [c, t, f])  # type: ignore
+    res = _elementwise(Op.IF, shape, [c, t, f])  # type: ignore
+    if res is NotImplemented:
+        raise TypeError("unsupported argument type(s) for 'cond'")
+    return res
 
 
 @overload
@@ -161,6 +174,11 @@ def then(
     elif isinstance(y, (BoolArray1D, BoolArray2D)):
         shape = y.shape
     else:
+        if not (_is_bool_expr_like(x) and _is_bool_expr_like(y)):
+            raise TypeError("unsupported argument type(s) for 'then'")
         return BoolExpr(Op.IMP, [x, y])
 
-    return _elementwise(Op.IMP, shape, [x, y])  # type: ignore
+    res = _elementwise(Op.IMP, shape, [x, y])  # type: ignore
+    if res is NotImplemented:
+        raise TypeError("unsupported argument type(s) for 'then'")
+    return res
